@@ -910,6 +910,8 @@ class C04(PropertyCheck):
         "QipVerif.C04.shortcut_sound",
         "QipVerif.C04.signatures_agree",
         "QipVerif.C04.import_faithful_partial",
+        "QipVerif.C04.import_den_partial",
+        "QipVerif.C04.import_unitary_partial",
         "QipVerif.C04.cond_onebit",
         "QipVerif.C04.import_rejects_undeclared_gate",
         "QipVerif.C04.import_rejects_bad_argument",
@@ -927,7 +929,10 @@ class C04(PropertyCheck):
                   "for every program of the class W0 (no user gate definitions; any registers, broadcast, barrier, measure, "
                   "if-conditioned gates) that the standard accepts, a statement-level model of the importer (tables regenerated "
                   "from the source) returns exactly the library gates of the standard's flat operations (refinement by "
-                  "induction over the statements); the model provably rejects undeclared "
+                  "induction over the statements), and these gates have, segment by segment (same condition bits/value, same "
+                  "measurements), the unitary of the standard's full expansion to U/CX on the N-qubit register up to one phase "
+                  "(import_den_partial, on the central embedding algebra; one global phase for programs without conditions and "
+                  "measurements); the model provably rejects undeclared "
                   "gates and registers, out-of-range indices and wrong arities, and is proved to deviate from the standard for "
                   "if-statements on registers of several bits (counter-examples). The model is tied to the code by a "
                   "correspondence on programs generated from the grammar and their malformed variants; the standard's "
